@@ -5,7 +5,7 @@ import time
 from harness import common, l2tie, pool, scenarios
 
 
-MODEL_PROFILES = {'straight', 'branch', 'memory', 'storage', 'hash'}
+MODEL_PROFILES = {'straight', 'branch', 'memory', 'storage', 'hash', 'log', 'loop', 'call', 'create'}
 
 
 def _worker(task):
